@@ -97,6 +97,8 @@ func main() {
 		os.Exit(2)
 	}
 
+	debug.SetGCPercent(800)
+	stopProf := startProf()
 	start := time.Now()
 	r := newReport(pd.id, *tier, seed)
 	r.noEvidence = *noEvidence
@@ -149,6 +151,7 @@ func main() {
 		}
 		return r.finish(start, c)
 	}()
+	stopProf()
 	os.Exit(code)
 }
 
